@@ -89,6 +89,7 @@ def check(ctx):
     ctx.rule("R3", "@$() output is split with the shell lexer only", floor=2)
     ctx.rule("R6", "the `$VAR` expansion of non-raw literals is one positional pass over the references of the original text", floor=2)
     ctx.rule("R5", "alias resolution only copies the user's arguments: no call other than a copy, the alias invocation or the recursion receives them; every list result carries them, behind the alias's own words", floor=10)
+    ctx.rule("R9", "the argument list of every launch is built from fresh lists: nothing on the launch path edits in place (+=, append, extend, insert, item store ...) an object that outlives the call - the result of a memoised function or a module-level list - so one command's arguments cannot show up in the next command's argv", floor=1)
     ctx.rule("R4", "the argv hand-off in SubprocSpec only copies: the command list is written by the known resolvers and none of them (nor the stage constructors) splits, globs or expands an element", floor=8)
 
     g = grammar.load(ctx.repo, lalr=False)
@@ -550,6 +551,7 @@ def check(ctx):
         # no match loop at all: accepted only if the whole substitution is one re.sub with a callback (positional by construction)
         subs = [c for c in calls_in(ev) if isinstance(c.func, ast.Attribute) and c.func.attr == "sub" and len(c.args) >= 2 and not isinstance(c.args[0], ast.Constant)]
         ctx.ob("R6", "xonsh/tools.py:expandvars", "references are substituted in one positional pass (match loop with span splicing, or a single regex.sub with a callback)", bool(subs), key="expandvars|no-positional-pass", where=loc(ev))
+    _fresh_argv(ctx)
 
 
 def _mode_on_path(fn, path):
@@ -578,6 +580,70 @@ def _mode_on_path(fn, path):
                 best = const_value(n.value)
     return best
 
+
+
+MUTATORS = {"append", "extend", "insert", "pop", "remove", "sort", "reverse", "clear", "update", "setdefault", "popitem", "add", "discard"}
+
+
+def _shared_object_mutations(fn, shared_calls, shared_names):
+    """in-place edits, inside fn, of a local bound to a call of one of `shared_calls` (or to one of the module-level
+    `shared_names`), aliases included"""
+    defs = df.all_defs(fn)
+    roots = set()
+    for nm, ds in defs.items():
+        for d in ds:
+            v = d.value
+            if v is None:
+                continue
+            if isinstance(v, ast.Call) and (call_name(v) or "").split(".")[-1] in shared_calls:
+                roots.add(nm)
+            if isinstance(v, ast.Name) and v.id in shared_names and d.kind == "assign":
+                roots.add(nm)
+    names = set()
+    for r in roots:
+        names |= alias_class(defs, r)
+    local = set(defs)
+    names |= {g for g in shared_names if g not in local}
+    out = []
+    for n in walk_local(fn):
+        if isinstance(n, ast.AugAssign) and isinstance(n.target, ast.Name) and n.target.id in names:
+            out.append(n)
+        elif isinstance(n, ast.AugAssign) and isinstance(n.target, ast.Subscript) and isinstance(n.target.value, ast.Name) and n.target.value.id in names:
+            out.append(n)
+        elif isinstance(n, ast.Call) and isinstance(n.func, ast.Attribute) and n.func.attr in MUTATORS and isinstance(n.func.value, ast.Name) and n.func.value.id in names:
+            out.append(n)
+        elif isinstance(n, (ast.Assign, ast.Delete)):
+            for t in n.targets:
+                if isinstance(t, ast.Subscript) and isinstance(t.value, ast.Name) and t.value.id in names:
+                    out.append(n)
+    return out
+
+
+def _fresh_argv(ctx):
+    n = 0
+    src = "import functools\n@functools.lru_cache(maxsize=8)\ndef interp(f):\n    return ['sh']\ndef build(f, args):\n    cmd = interp(f)\n    cmd += [f, *args]\n    return cmd\n"
+
+    def finder(tree):
+        fns = {f.name: f for f in tree.body if isinstance(f, ast.FunctionDef)}
+        return bool(_shared_object_mutations(fns["build"], {"interp"}, set()))
+
+    positive_example(src, finder, "in-place edit of a memoised result")
+    for rel in (SP, "xonsh/procs/executables.py", "xonsh/aliases.py", "xonsh/built_ins.py"):
+        mod = ctx.repo.module(rel)
+        memo = set()
+        for q, fn in mod.functions():
+            for d in fn.decorator_list:
+                t = unparse(d)
+                if "lru_cache" in t or t.split("(")[0].split(".")[-1] in ("cache", "cached_property", "memoize", "lazyobject"):
+                    memo.add(q.split(".")[-1])
+        # module-level mutable displays (lists / dicts / sets bound once at module level)
+        shared = {nm for nm, asg in mod.assigns.items() if "." not in nm and isinstance(asg[-1].value, (ast.List, ast.Dict, ast.Set, ast.ListComp, ast.DictComp))}
+        for q, fn in mod.functions():
+            hits = _shared_object_mutations(fn, memo, set())
+            n += 1
+            for h in hits:
+                ctx.ob("R9", f"{rel}:{q}", f"`{short(h, 60)}` does not edit in place an object handed out by a memoised function ({sorted(memo)})", False, key=f"{q}|memoised-result-edited-in-place", where=loc(h))
+        ctx.ob("R9", rel, f"{len(list(mod.functions()))} functions scanned: no in-place edit of a memoised function's result (memoised here: {sorted(memo) or 'none'})", True, key=f"{rel}|scanned")
 
 META = {
     "technique": "static analysis: effective PLY grammar (dumped from the working tree) x decision-table extraction of the subprocess atom actions, effect summaries of the run-time helpers over the built_ins call graph, who-may-write the argv list",
